@@ -524,6 +524,50 @@ def run_pre(task, p: Partial):
                     pre_point(p, d, form, cont, norm, rp)
 
 
+# ---------------------------------------------------------------------------------------------
+# preseq: one execution = a SEQUENCE of calls, each with a fresh short-lived space of the same shape/dtype and other bounds
+# (an environment sweep in one process). "Value-correct for the space that is passed in" must not depend on which spaces were
+# preprocessed before: catches results memoised per shape / dtype / object identity. The spaces are created and dropped inside
+# the point so that the allocator's reuse of a freed space's address happens inside one execution.
+SEQ_BOUNDS = {"f32": ["255", "m13", "01", "255", "m13", "255", "01", "m13"], "f64": ["m13", "255", "m13", "01", "255", "01"], "u8": ["255", "01", "255", "01", "255", "01"]}
+
+
+def run_preseq(task, p: Partial):
+    shape, dt = task["shape"], task["dt"]
+    for cont in task["conts"]:
+        for form in task["forms"]:
+            lead = FORMS[form]
+            bad = []
+            for rep in range(3):
+                for j, b in enumerate(SEQ_BOUNDS[dt]):
+                    leaf = box(shape, dt, b)
+                    raw = gen(leaf, lead, off=j)
+                    obs = wrap(leaf, raw, form, cont)
+                    if obs is ILLEGAL:
+                        continue
+                    space = mk_space(leaf)
+                    exp = ref_tree(leaf, raw, True)
+                    p.evaluations += 1
+                    try:
+                        with warnings.catch_warnings():
+                            warnings.simplefilter("ignore")
+                            got = AU.preprocess_observation(obs, space, normalize_images=True)
+                        r = compare(leaf, got, exp)
+                    except Exception as e:  # noqa: BLE001
+                        r = (0, "exception/" + type(e).__name__, repr(e))
+                    del space
+                    if r:
+                        bad.append((rep, j, b, r[1], r[2]))
+            p.nt(f"preseq|{shape}|{dt}|{form}|{cont}")
+            p.out(["preseq", dt, form, cont, len(bad) > 0])
+            if bad:
+                rep, j, b, sym, det = bad[0]
+                p.viol(f"preprocess_observation/image/fresh-space-sequence/{sym}",
+                       f"preprocess_observation on a sequence of fresh Box{tuple(shape)} {dt} spaces with bounds {SEQ_BOUNDS[dt]} (x3), container={cont}, form={form}: "
+                       f"{len(bad)} of {3 * len(SEQ_BOUNDS[dt])} calls wrong; first: round {rep} call {j} bounds {b}: {det}",
+                       {"part": "preseq", "shape": shape, "dt": dt, "conts": [cont], "forms": [form]})
+
+
 # =============================================================================================
 # agents
 
@@ -1189,6 +1233,8 @@ def bounds(tier):
                         "Discrete": [1, 2, 5], "MultiDiscrete": [[2], [2, 3]], "MultiBinary": [1, 3], "count": len(all_leaves())},
         "composite_spaces": "Dict and Tuple of every ordered pair of " + (f"{len(member_leaves_quick())} representative leaves (every rank, singleton variant, every non-Box leaf)" if q else f"all {len(all_leaves())} leaves"),
         "forms": {k: list(v) for k, v in FORMS.items()},
+        "fresh_space_sequences": {"shapes": [[2, 4, 4], [3, 2, 1]], "bounds_sequence_per_dtype(x3 rounds)": SEQ_BOUNDS, "containers": ["pt", "np"],
+                                  "forms": ["u", "b3"] if q else ["u", "b1", "b3", "se"], "oracle": "every call judged against the bounds of the space passed to THAT call"},
         "containers": CONTS,
         "normalize_images": [True, False] if not q else "both for spaces containing a rank-3 Box and for every leaf; on only for image-free composites",
         "single_agent": {"algorithms": list(SA_ALGOS) if not q else [a for a in SA_ALGOS if a != "PPO-box"], "obs_spaces": len(o4_spaces(tier)), "encoder_layer_norm": [True, False],
@@ -1215,6 +1261,10 @@ def tasks(tier, seed):
         for a in ms:
             sp = [{"k": outer, "m": [a, b]} for b in ms]
             out.append({"part": "pre", "spaces": sp, "forms": forms, "conts": CONTS, "norms": [True, False], "norm_off_images_only": q, "_cost": len(sp) * 60})
+    # ---- pre: sequences of fresh same-shape image spaces with changing bounds
+    for shape in ([2, 4, 4], [3, 2, 1]):
+        for dt in ("f32", "f64", "u8"):
+            out.append({"part": "preseq", "shape": shape, "dt": dt, "conts": ["pt", "np"], "forms": ["u", "b3"] if q else ["u", "b1", "b3", "se"], "_cost": 200})
     # ---- single agent
     sas = o4_spaces(tier)
     for algo in SA_ALGOS:
@@ -1248,6 +1298,8 @@ def run_task(task):
     np.random.seed(0)
     if part == "pre":
         run_pre(task, p)
+    elif part == "preseq":
+        run_preseq(task, p)
     elif part == "sa":
         run_sa(task, p)
     elif part == "ma":
